@@ -27,6 +27,11 @@ PROFILES = [
     S.profile(min_tasks=2, p_resources=60, task_constraints=(0, 2), optional_rules=(0, 2), resource_constraints=(0, 1), buffers=(0, 1), indicators=(0, 2), p_work_amount=30, **OPT),
     S.profile(min_tasks=2, p_resources=80, task_constraints=(1, 3), optional_rules=(1, 2), resource_constraints=(0, 2), buffers=(0, 1), indicators=(0, 1), fol=(0, 1), p_work_amount=30, p_delay=30, **OPT),
 ]
+PROFILES.append(
+    # unscheduled optional tasks whose workers carry delay_in / early_out, observed through utilisation and cost
+    S.profile(min_tasks=2, max_tasks=3, p_resources=100, n_workers=(1, 2), p_select=20, p_cumulative=10, p_delay=70, task_constraints=(0, 1), optional_rules=(0, 1), resource_constraints=(0, 1),
+              indicators=(1, 2), indicator_types=["ResourceUtilization", "ResourceCost", "NumberTasksAssigned"], p_work_amount=10, p_optional=70)
+)
 PROFILE_DEL = S.profile(min_tasks=2, max_tasks=4, horizon=(2, 6), p_no_horizon=10, p_resources=65, task_constraints=(0, 3), optional_rules=(0, 1), resource_constraints=(0, 1), buffers=(0, 1), p_work_amount=30, p_delay=25, **OPT)
 PROFILE_COMP = S.profile(min_tasks=2, max_tasks=3, horizon=(2, 5), p_no_horizon=5, p_resources=60, task_constraints=(0, 2), optional_rules=(0, 2), resource_constraints=(0, 1), buffers=(0, 1), p_work_amount=30, p_delay=25, **OPT)
 
@@ -306,7 +311,7 @@ def report_defects(spec, sol):
 def run_shard(ctx):
     q = ctx.tier == "quick"
     for prof in PROFILES:
-        run_hypothesis(ctx, S.spec_with_pins(prof, n_sets=5), prop_sound, max_examples=45 if q else 500)
+        run_hypothesis(ctx, S.spec_with_pins(prof, n_sets=5), prop_sound, max_examples=35 if q else 400)
     run_hypothesis(ctx, S.spec_with_pins(PROFILE_COMP, n_sets=2, n_cands=6), prop_complete, max_examples=35 if q else 400)
     run_hypothesis(ctx, S.spec_with_pins(PROFILE_DEL, n_sets=5), prop_delete, max_examples=45 if q else 500)
     run_hypothesis(ctx, S.spec_with_pins(PROFILES[0], n_sets=0), prop_report, max_examples=40 if q else 400)
